@@ -19,14 +19,32 @@ env = dict(os.environ, PYTHONPATH=wt, AY_TREE=wt, PYTHONDONTWRITEBYTECODE='1')
 res = {'seed': sid, 'source_dir': src}
 def run(cmd, **kw):
     return subprocess.run(cmd, cwd=wt, env=env, capture_output=True, text=True, timeout=300, **kw)
+BASE = [t for t in json.load(open('/root/.vp/BASELINE.json'))['stable_pass'] if t != '::']
 def tests():
-    p = run(['/venv/bin/python', '-m', 'pytest', '-q', '-p', 'no:cacheprovider', '--timeout=900', '--continue-on-collection-errors'])
+    """(number passed, known error present) + res['baseline_missing'] = pinned baseline tests that do not pass"""
+    p = run(['/venv/bin/python', '-m', 'pytest', '-q', '-rA', '-p', 'no:cacheprovider', '--timeout=900', '--continue-on-collection-errors'])
     m = re.search(r'(\d+) passed', p.stdout)
+    passed = set()
+    for l in p.stdout.split('\n'):
+        if l.startswith('PASSED '):
+            parts = l[7:].strip().split('::')
+            passed.add('::'.join([parts[0].replace('/', '.')[:-3]] + parts[1:]) if len(parts) == 2 else parts[0].replace('/', '.')[:-3] + '.' + '::'.join(parts[1:]))
+    res['baseline_missing'] = [t for t in BASE if t not in passed]
     return int(m.group(1)) if m else -1, ('1 error' in p.stdout)
 try:
     demo = os.path.join(src, 'demo.py')
     p = run(['/venv/bin/python', demo])
     res['demo_clean_rc'] = p.returncode
+    base_file = '/tmp/sv/clean_baseline.json'
+    head = subprocess.run(['git', '-C', '/repo', 'rev-parse', 'HEAD'], capture_output=True, text=True).stdout.strip()
+    try:
+        base = json.load(open(base_file))
+        assert base['head'] == head
+    except Exception:
+        n_, e_ = tests()
+        base = {'head': head, 'passed': n_, 'known_error': e_}
+        json.dump(base, open(base_file, 'w'))
+    res['clean_tests_passed'] = base['passed']
     p = subprocess.run(['git', '-C', wt, 'apply', os.path.join(src, 'patch.diff')], capture_output=True, text=True)
     res['apply_rc'] = p.returncode
     res['apply_err'] = p.stderr[-300:]
@@ -40,19 +58,21 @@ try:
         res['demo_patched_rc'] = p.returncode
         res['demo_patched_out'] = (p.stdout + p.stderr)[-400:]
     ok = (res.get('demo_clean_rc') == 0 and res.get('apply_rc') == 0 and res.get('imports') and
-          res.get('tests_passed') == 100 and res.get('tests_known_error') and res.get('demo_patched_rc', 0) != 0)
+          not res.get('baseline_missing') and res.get('tests_known_error') and res.get('demo_patched_rc', 0) != 0)
     res['confirmed'] = bool(ok)
     if ok:
         dst = '/verif/seeded/' + sid
         os.makedirs(dst, exist_ok=True)
-        shutil.copy(os.path.join(src, 'patch.diff'), dst)
-        shutil.copy(demo, dst)
+        if os.path.abspath(src) != os.path.abspath(dst):
+            shutil.copy(os.path.join(src, 'patch.diff'), dst)
+            shutil.copy(demo, dst)
         meta = json.load(open(os.path.join(src, 'meta.json')))
         meta['confirmed_by_me'] = {
             'what_i_ran': ['git worktree add /tmp/sv/%s HEAD' % sid, 'demo.py on clean tree -> rc 0', 'git apply patch.diff',
-                           'pytest baseline command -> 100 passed + known INTERNALERROR', 'demo.py on patched tree -> rc %d' % res['demo_patched_rc']],
+                           'pytest baseline command: all 101 pinned baseline tests pass (%d of the %d tests that run on the clean tree pass in total)' % (res['tests_passed'], res['clean_tests_passed']), 'demo.py on patched tree -> rc %d' % res['demo_patched_rc']],
             'repo_head': subprocess.run(['git', '-C', '/repo', 'rev-parse', 'HEAD'], capture_output=True, text=True).stdout.strip(),
             'diffstat': res.get('diffstat'),
+            'tests_beyond_pinned_baseline': '%d passed with the change vs %d on the clean tree (tests outside the pinned 101 run only since fix F17)' % (res['tests_passed'], res['clean_tests_passed']),
         }
         json.dump(meta, open(os.path.join(dst, 'meta.json'), 'w'), indent=1)
 finally:
